@@ -1,21 +1,74 @@
-"""Regenerates MANIFEST.json from the table below (keeps it valid at all times)."""
+"""Regenerates MANIFEST.json from the table below (keeps it valid at all times).
+A property is claimed only when harness/props/<id>.py and lean/Audit/<id>.lean both exist."""
 import json
 from pathlib import Path
 
 VERIF = Path(__file__).resolve().parent.parent
 BASE_OFF = "cd /repo && /venv/bin/python -m pytest -ra -q -p no:cacheprovider --timeout=900 --continue-on-collection-errors"
+TB = "Trusted: Lean 4.33 kernel, axioms {propext, Classical.choice, Quot.sound} (audited every run), Mathlib v4.33, the Lean compiler/runtime running the model driver, harness/*.py (correspondence, shims, statistics). "
 
 CHECKS = {
-    "C17": dict(
-        category="proof",
-        text="Lean theorems (all n, all binary zero-diagonal matrices, all polylines over Q): TPR=TP/(TP+FN), FPR=FP/(FP+TN) over off-diagonal pairs, ranges, identical=>(1,0), complement=>(0,1), AUC trapezoid in [0,1]; tied to core/stats.py by exact-vs-float correspondence, exhaustive for n<=3",
-        design_ref="DESIGN.md §6 C17",
-        note="Trusts: Lean kernel + Mathlib; driver runtime; flattening glue (matrix -> pair list) and float rounding are covered by the correspondence (1e-12), not by the theorems",
-        technique="Lean 4 proof over Q + exhaustive/random differential correspondence with the model driver",
-    ),
+    "C01": ("proof", "Lean theorems over the discovery model for every series/estimator/permutation stream/method: lagged_entry (row r = time max_lag+r, predictor delayed by exactly tau), label bijection, edge_semantics (cmi = est(lagged u, target v | other reported parents)), pvalue_formula (fraction of X-row-shuffled surrogates >= cmi). Tied to discover_network by exact replay of the real run (recorded permutation stream, scripted rational estimator on coded series that identify (variable,time) of every array entry) plus recomputation of each real edge's cmi with the public dispatcher.",
+            "Modelled not verified: NumPy slicing/column_stack, Generator stream (recorded), LASSO selections (oracle with checked range). 'Agrees with an independent permutation estimate up to sampling error' is a measurement (Hoeffding, budget 1e-9).",
+            "Lean 4 proof on executable discovery model + exact event-trace correspondence on coded series"),
+    "C02": ("proof", "Lean refinement theorems: for ALL landscapes f, verdict oracles (stateful allowed) and backward visiting orders, the code-shaped standard/alternative forward phases, the backward phase and their composition satisfy the declarative oCSE rule (arg-max among undecided given initial+accepted, accept iff pass, std continues / alt stops, each accepted re-tested once against current survivors, levels alpha_f/alpha_b); consequences: result duplicate-free subset, one edge per survivor. Tie: the real functions driven by scripted oracles, EXHAUSTIVE decision-tree enumeration for <=3 candidates (all weak orderings x verdicts x visiting orders), sampled to 8 candidates incl. NaN/tie-heavy landscapes; every implementation trace is replayed through the model and judged by the declarative checker specOK.",
+            "NaN is ordered as NumPy's argmax treats it (first NaN wins, fails every comparison). Oracles are observed at module-attribute seams.",
+            "Lean 4 refinement proof + exhaustive small-scope differential replay"),
+    "C03": ("proof", "Lean theorems on the model of shuffle_test for every finite null, alpha in (0,1), n>=1: threshold inside the order-statistic bracket of the (1-alpha) quantile, p = #{null >= obs}/n, value echoed, pass => p <= alpha+1/n, fail => p >= alpha-1/n (also for ANY threshold inside the bracket, covering NumPy's rounded interpolation), fully tied null never significant, exactly n surrogates each on (X permuted, Y, Z). Tie: real shuffle_test with the estimator seam spied (arrays/permutations recorded), scripted tie-free/partially tied/fully tied nulls and the five real estimators; exact comparison with the model's decision.",
+            "np.percentile rounding is bracket-checked per call; Generator.permutation trusted; non-finite nulls outside the quantifier.",
+            "Lean 4 proof + spy-based differential correspondence"),
+    "C04": ("proof", "Lean theorem shuffle_level: for EVERY statistic, data set, N, n>=1, alpha: P(pass) <= (n-floor((n-1)(1-alpha)))/(n+1) under row-exchangeability (counting proof over Perm(Fin N)^(n+1), transported to the code's sampling scheme); corollary <= alpha+1/n under the decidable side condition SC(alpha,n) (true for the default 0.05/200); without SC only c04_level_partial is proved and literal_bound_fails gives a machine-checked counterexample. Tie = C03's correspondence of the same function. Measurements (not proofs): rejection frequency of the real test for the five estimators (exact binomial tail) and network fraction on white noise (Hoeffding), budget 1e-9.",
+            "Exchangeability under the null and uniformity of Generator.permutation are hypotheses. The whole-network sentence (arg-max selection before testing) is measured only.",
+            "Lean 4 counting proof (exactness of permutation tests) + statistical measurement with explicit error budget"),
+    "C05": ("other", "Partial: Lean theorem planted_recovered (if the planted column is the strict arg-max whenever undecided and passes its forward and backward tests, the output contains the edge with exactly its variable and lag, for any behaviour of all other candidates) + check that premise=>conclusion holds in every instrumented real run; the recovery FREQUENCY (>=98% / >=75%) is estimator power on random data and is decided only by an exact binomial lower-tail measurement (budget 1e-9).",
+            "The distribution of estimator values on random data cannot be exhibited by a model; stated as measurement.",
+            "Lean 4 conditional-recovery theorem + binomial measurement"),
+    "C06": ("proof", "Lean theorems for every series/estimator/stream/LASSO oracle in range: nodes = range n, edges join nodes, 1<=lag<=L, p=k/n_shuffles with k<=n, no duplicate (source,target,lag), cmi never finite-negative given C09's floor, rejects (NotImplementedError / ValueError iff T<=L+2, the only errors). Guard lists regenerated from the AST each run (obligation). Tie: real discover_network on ndarray/DataFrame, int/float, constant/duplicated columns vs the model graph given recorded oracles; byte comparison of the caller's object.",
+            "Node naming and 'input untouched' are runtime facts checked by the harness, not theorems.",
+            "Lean 4 proof + AST-regenerated guard tables + differential correspondence"),
+    "C07": ("proof", "Thin by design: the model needs no state (history_independent, globals_untouched are immediate); presentation_independent has content (the result depends on the series only through its entries in the window). All assurance that the implementation is such a function comes from the tie: recorded generator stream must equal a fresh default_rng(42) stream consumed in model order; histories of interleaved calls / reseeded global RNGs / plotting; global RNG states compared before/after; presentations ndarray C/F, lists, DataFrame, int vs float.",
+            "A pure model cannot exhibit hidden state; the history-differential tie is what decides the property.",
+            "Lean 4 (thin) + history/presentation differential testing against the model"),
+    "C08": ("proof", "Lean theorems over Q with Mathlib's determinant (bridge detF = Matrix.det): ratio_cov, X<->Y symmetry, chain rule at the level of correlation determinants, scalar form 1/(1-r^2), invariance under per-column affine maps, row permutation; estimator = 1/2 log ratio. Tie: real gaussian (conditional) MI and dispatcher vs 1/2 log of the exact rational ratio (1e-8 abs + 1e-8 rel), LS-residual reference, sentinel/degenerate branches.",
+            "log and float rounding are outside the theorems (tolerance). General non-negativity needs Fischer's inequality (nonneg_partial).",
+            "Lean 4 proof (Mathlib determinants) + exact-rational reference evaluation"),
+    "C09": ("proof", "The dispatch tables are REGENERATED from the Python AST every run and checked by `decide` against tableOK; Lean theorems for every table passing the check: dispatch_value (documented estimator evaluated, every accepted setting is the caller's, with and without Z), dispatch_floor, non-finite pass-through, kde alias, unknown name raises. Independent spy-based tie: dispatcher value vs max(0, direct call with explicit settings) bit-for-bit over the cross product of names/paths/settings, planted nan/inf/negative returns.",
+            "Translator (ast pattern matching) trusted, cross-checked against spied behaviour. One open known finding (geometric-kNN Z=None path drops k/metric).",
+            "Translator-regenerated Lean obligation (decide) + spy-based differential check"),
+    "C10": ("proof", "Lean theorems: kNN MI/CMI invariant under joint row permutation, X<->Y swap and Z column permutation (exact over Q), Gaussian ratio invariant under row permutation / swap / column order, KDE entropies invariant for uninterpreted exp/log. Tie: metamorphic check on the real functions (all estimators, conditional and unconditional paths, row permutations, all Z column permutations, swap) at 1e-9 relative, purity (equal arguments equal results, arguments unmodified).",
+            "Geometric-kNN row permutation relies on the local-correction functional (hypothesis). One open known finding (Poisson conditional path).",
+            "Lean 4 invariance proofs + metamorphic testing of the implementation"),
+    "C11": ("proof", "Lean theorems over Q: psi_free (for ANY psi with the digamma recurrence the KSG MI/CMI equal gamma-free harmonic-number forms), code_eq_spec (sort-whole-row/index-k/count-minus-one = k-th nearest OTHER sample / count of OTHER samples strictly inside, under tie-freeness, which is forced). KDE: definition = documented formula (thin), signed sums. Tie: exact rational value vs float result (1e-9) with near-tie filter; KDE Float evaluation of the same polymorphic definition vs sklearn-based implementation.",
+            "digamma at integers = harmonic numbers (recurrence hypothesis; scipy trusted); sklearn KernelDensity bandwidth rules mirrored; float rounding by tolerance.",
+            "Lean 4 proof + exact-rational brute-force evaluation"),
+    "C12": ("other", "Partial: reference evaluation of the published formula by an independent implementation, and the four laws (translation, rotation, d*log a scaling, sample order) checked directly on the real function with the predicted deltas; kNN-term scaling law proved in Lean; invariance of the SVD-based local correction is a hypothesis (Mathlib has no packaged singular-value invariance).",
+            "LAPACK SVD is runtime behaviour outside the model.",
+            "Partial Lean proof + independent reference evaluation + metamorphic laws"),
+    "C13": ("proof", "Lean theorems for any ordered field and abstract pmf: loop_invariant/run_closed_form (the while loop equals the closed form), cont_mono/stop_index_mono (a vector call runs at least the terms of every scalar call), vector_is_scalar_plus_tail, tail_bound, elementwise_independent, zero-rate entries exactly 0, joint_def; negative witness for the pinned min rule. Tie: Float instance of the same definition + independent log-space reference vs poisson_entropy on a dense grid [0,500], tiny rates, mixed vectors/matrices; joint entropy exact.",
+            "Absolute accuracy 1e-9 against the infinite series (c13_accuracy_partial) is checked numerically only (needs Poisson tail bounds and SciPy's pmf error).",
+            "Lean 4 proof (loop invariant) + reference evaluation"),
+    "C14": ("proof", "Lean theorems on the converters: membership/locality characterisations, edges per mark with value/p/significant, errors, graph_roundtrip for every graph with unique (source,target,lag) and mirrored symmetric pairs, pcmci_roundtrip_partial (patterns without '<--'), negative witnesses for '<--' (open known finding). Link-type tables regenerated from the AST (obligation). Tie: both converters and both compositions vs the model; consistent patterns exhaustive for 2 nodes x lags {0,1}; random patterns to 5 nodes x 4 lags; malformed stream.",
+            "Node identity = position in G.nodes(); NetworkX iteration order is input. '<--' round trip is a recorded known finding.",
+            "Lean 4 proof (locality + finite table) + exhaustive small-scope correspondence"),
+    "C15": ("proof", "Lean theorems: one row per edge in order with unchanged endpoints/attributes, header = base ++ supplied metadata in documented order for every subset of the 9 parameters, empty frame, PCMCI export lists symmetric links once. Column tables regenerated from the AST (obligation). Tie: random multigraphs (mixed labels, parallel edges, self-loops, missing attributes) x metadata subsets, cell-wise comparison.",
+            "NetworkX edge iteration order and pandas DataFrame construction trusted.",
+            "Lean 4 proof + AST-regenerated column tables + differential correspondence"),
+    "C16": ("proof", "Lean theorems: sub_edges (membership), partition (under unique triples), companion_entry (nK x nK, first block row = lag adjacencies, sub-diagonal identities, zeros elsewhere) proved for the code-shaped block-writing model, companion_empty. Tie: exact integer comparison on random multigraphs, exhaustive for <=2 nodes and lags {0,1,2}.",
+            "NetworkX container semantics trusted; property restricted to unique triples and lags >= 0.",
+            "Lean 4 proof + exhaustive small-scope correspondence"),
+    "C17": ("proof", "Lean theorems (all n, all binary zero-diagonal matrices, all polylines over Q): TPR=TP/(TP+FN), FPR=FP/(FP+TN) over off-diagonal pairs, ranges, identical=>(1,0), complement=>(0,1), AUC trapezoid in [0,1]; tied to core/stats.py by exact-vs-float correspondence, exhaustive for n<=3.",
+            "Flattening glue and float rounding covered by the correspondence (1e-12), not by the theorems.",
+            "Lean 4 proof over Q + exhaustive/random differential correspondence"),
+    "C18": ("proof", "Lean theorems: linear_in_eps, residual (X_t - A X_{t-1} = eps w_t), support on the transposed graph, radius_scaling for any eigen-pair, Poisson rate formula and floor. Tie: recording generator shim (every normal/uniform/Poisson draw and the rate argument of every rng.poisson call observed) replayed through the exact model; determinism and global-RNG checks.",
+            "Spectral radius is LAPACK's; conditional mean of NumPy's Poisson sampler trusted (+ pooled z-test, measurement).",
+            "Lean 4 proof + recorded-draw replay through the exact model"),
+    "C19": ("proof", "Lean theorems: logistic_mem, step_mem, orbit_mem (induction over t, any n, any non-negative matrix with row sums <= 1), rowNormalise_ok; negative witness for the pre-fix update. Tie: direct range check of every value + exact one-step replay of consecutive rows through the model; returned matrix vs model normalisation of the Erdos-Renyi adjacency.",
+            "Theorems over exact rationals; rounding covered by the direct range check on the float output.",
+            "Lean 4 invariant proof + one-step simulation check"),
+    "C20": ("other", "Partial: Lean theorems seedOrder_perm (any community output), optimise_perm (every iteration budget, move and accept stream), equispaced distinct positions, normalisation ranges (no division by zero), cmap index, arc radius total. Tie: real optimiser replayed on its own recorded move stream; real plot_causal_network on random multigraphs x option combinations: returns (Figure, Axes), no exception, graph deep-equal before/after, positions = model positions, same seed same order.",
+            "Totality of the matplotlib/NetworkX drawing stack and non-mutation of a Python object are runtime facts: sampled, not proved.",
+            "Partial Lean proof + sampled totality of the drawing stack"),
 }
-
-NOT_YET = {}
 
 
 def main():
@@ -23,23 +76,24 @@ def main():
     checks, na = [], []
     for p in props:
         pid = p["id"]
-        if pid in CHECKS:
-            c = CHECKS[pid]
+        built = (VERIF / "harness" / "props" / f"{pid.lower()}.py").exists() and (VERIF / "lean" / "Audit" / f"{pid}.lean").exists()
+        if built:
+            cat, text, note, tech = CHECKS[pid]
             checks.append(
                 {
                     "property_id": pid,
                     "quick_cmd": f"./check {pid} quick",
                     "thorough_cmd": f"./check {pid} thorough",
                     "evidence_file": f"evidence/{pid}.json",
-                    "replay_cmd_template": f"./check {pid} quick  # replay file: {{path}} (records seed, tier and the failing case)",
+                    "replay_cmd_template": f"./check {pid} quick  # the replay file {{path}} records seed, tier and the failing case; rerun with VERIF_SEED=<seed>",
                     "engine": "lean4-model+python-correspondence",
-                    "level_claimed": {"category": c["category"], "text": c["text"], "design_ref": c["design_ref"]},
-                    "level_note": c["note"],
-                    "technique": c["technique"],
+                    "level_claimed": {"category": cat, "text": text, "design_ref": f"DESIGN.md §6 {pid}"},
+                    "level_note": TB + note,
+                    "technique": tech,
                 }
             )
         else:
-            na.append({"property_id": pid, "reason": NOT_YET.get(pid, "check not built yet in this round (planned: Lean 4 model + theorems + correspondence, see DESIGN.md §6)")})
+            na.append({"property_id": pid, "reason": "check not built yet in this round (planned: Lean 4 model + theorems + correspondence, see DESIGN.md §6 " + pid + ")"})
     man = {
         "version": 1,
         "setup_cmd": "./setup.sh",
@@ -60,9 +114,10 @@ def main():
         ],
         "checks": checks,
         "not_applicable": na,
-        "notes": "See DESIGN.md. known_findings.json lists genuine defects (open/fixed). Exit codes: 0 held, 1 VIOLATION, 2 infrastructure failure.",
+        "notes": "See DESIGN.md. known_findings.json lists genuine defects (open/fixed; three fix: commits in /repo). Exit codes: 0 held, 1 VIOLATION, 2 infrastructure failure.",
     }
     (VERIF / "MANIFEST.json").write_text(json.dumps(man, indent=1) + "\n")
+    print("claimed:", [c["property_id"] for c in checks])
 
 
 if __name__ == "__main__":
